@@ -166,7 +166,7 @@ package generate
 //@                    && callarg("func:generate.Generator.checkResources", old(ncalls("func:generate.Generator.checkResources")), 1) == sres(g)
 //@                    && ((callret("func:generate.Generator.checkResources", old(ncalls("func:generate.Generator.checkResources")), 0) != nil) <==> (result != nil))
 //@   ensures [nocheck] r != nil && g.checkResources == nil ==> result == nil
-//@   loop 1 modifies cfg(g).Linux.Resources, sres(g).HugepageLimits, elems(sres(g).HugepageLimits)
+//@   loop 1 modifies cfg(g).Linux.Resources, sres(g).HugepageLimits, elems(sres(g).HugepageLimits), calls("(*github.com/opencontainers/runtime-tools/generate.Generator).AddLinuxResourcesHugepageLimit")
 //@   loop 1 invariant 0 <= idx + 1 && idx + 1 <= len(r.HugepageLimits) && cfg(g) != nil && cfg(g).Linux != nil && linuxKept(g) && cfg(g) == pre(cfg(g)) && cfg(g).Linux == pre(cfg(g).Linux)
 //@   loop 1 invariant (pre(sres(g)) != nil ==> sres(g) == pre(sres(g))) && (pre(sres(g)) == nil && sres(g) != nil ==> prefresh(sres(g)) && zeroedexcept(sres(g), "HugepageLimits"))
 //@   loop 1 invariant base(sres(g).HugepageLimits) == pre(base(sres(g).HugepageLimits)) || prefresh(sres(g).HugepageLimits)
@@ -373,7 +373,7 @@ package generate
 //@   loop 2 invariant ncalls("(*github.com/opencontainers/runtime-tools/generate.Generator).ClearProcessEnv") == pre(ncalls("(*github.com/opencontainers/runtime-tools/generate.Generator).ClearProcessEnv"))
 //@   loop 3 invariant 0 <= idx + 1 && idx + 1 <= len(env) && sectionsKept(g)
 //@   loop 3 invariant ncalls("(*github.com/opencontainers/runtime-tools/generate.Generator).ClearProcessEnv") == pre(ncalls("(*github.com/opencontainers/runtime-tools/generate.Generator).ClearProcessEnv"))
-//@   loop 3 invariant ncalls("(*github.com/opencontainers/runtime-tools/generate.Generator).AddProcessEnv") <= pre(ncalls("(*github.com/opencontainers/runtime-tools/generate.Generator).AddProcessEnv")) + idx + 1
+//@   loop 3 invariant ncalls("(*github.com/opencontainers/runtime-tools/generate.Generator).AddProcessEnv") <= pre(ncalls("(*github.com/opencontainers/runtime-tools/generate.Generator).AddProcessEnv")) + idx + 1 && ncalls("(*github.com/opencontainers/runtime-tools/generate.Generator).AddProcessEnv") >= pre(ncalls("(*github.com/opencontainers/runtime-tools/generate.Generator).AddProcessEnv"))
 
 // block I/O and RDT classes: nil or no resolver - nothing; "" - cleared; otherwise whatever the resolver returns
 //@ func Generator.AdjustBlockIOClass
